@@ -87,7 +87,8 @@ def gen(rng, n, tier):
             if kind == "polar_map" and meta["names"] == "none": pass
             yield [["bucket", "plot2/" + kind + ("/regular" if regular else "")], ["what", "plot2"], ["kind", kind], ["axes", axes], ["freq", freq], ["ints", "T" if ints else "F"],
                    ["density", rng.choice("TF") if kind != "plotly_map" else "F"], ["show_zero", rng.choice("TF")], ["cmap", rng.choice(["none", "Greys", "viridis", "coolwarm"])],
-                   ["meta", [[k, v] for k, v in meta.items()]], ["want_labels", want if kind != "plotly_map" else "n/a"]]
+                   ["meta", [[k, v] for k, v in meta.items()]], ["want_labels", want if kind != "plotly_map" else "n/a"],
+                   ["layout", rng.choice(["C", "C", "F"] + (["T", "T"] if meta["names"] != "none" else ["F"]))]]
         elif r < 0.88:
             level = rng.choice(["sec", "min", "hour", "day", "edge", "center"])
             mult = rng.choice([1, 1, 2, 5, 10, 15, 30, 0.5]) if level in ("sec", "day") else rng.choice([1, 1, 2, 5, 10, 15, 30])
@@ -96,7 +97,7 @@ def gen(rng, n, tier):
             hi = fl(float(lo) + float(unit) * rng.uniform(0.5, 9))
             yield [["bucket", "ticks/" + level], ["what", "ticks"], ["level", level], ["mult", fl(mult) if isinstance(mult, float) else mult], ["unit", fl(unit)], ["lo", lo], ["hi", hi]]
         elif r < 0.95:
-            k = rng.choice(["wrong_dim", "wrong_dim", "unknown_backend", "unknown_kind"])
+            k = rng.choice(["wrong_dim", "wrong_dim", "unknown_backend", "unknown_kind", "unknown_kind"])
             yield [["bucket", "refusal/" + k], ["what", "refusal"], ["why", k], ["backend", rng.choice(["matplotlib", "plotly", "ascii"])], ["ndim", rng.choice([1, 2, 3])],
                    ["pick", rng.randint(0, 20)]]
         else:
@@ -235,7 +236,14 @@ def _plot2(d, f):
         from physt.special_histograms import PolarHistogram
         h = PolarHistogram(bs, np.array([conv(x) for x in d["freq"]]).reshape(shape), **kw0)
     else:
-        h = Histogram2D(bs, np.array([conv(x) for x in d["freq"]]).reshape(shape), **kw0)
+        arr = np.array([conv(x) for x in d["freq"]]).reshape(shape)
+        lay = d.get("layout", "C")
+        if lay == "F": h = Histogram2D(bs, np.asfortranarray(arr), **kw0)      # contents that are not C-ordered in memory
+        elif lay == "T":      # the same histogram obtained as the transpose of its transpose
+            kwt = dict(kw0)
+            if "axis_names" in kwt: kwt["axis_names"] = list(kwt["axis_names"])[::-1]
+            h = Histogram2D(bs[::-1], np.ascontiguousarray(arr.T), **kwt).T
+        else: h = Histogram2D(bs, arr, **kw0)
     before = _snap(h)
     kind = d["kind"]; kw = {}
     if d["density"] == "T": kw["density"] = True
@@ -306,7 +314,11 @@ def _refusal(d):
     why = d["why"]
     try:
         if why == "unknown_backend": hs[1].plot("bar", backend="gnuplot_" + str(d["pick"]))
-        elif why == "unknown_kind": hs[d["ndim"]].plot("pie_%d" % d["pick"], backend=d["backend"])
+        elif why == "unknown_kind":
+            # made-up names and names of things that live in the backend module but are no plot kinds
+            helpers = ["get_data", "get_err_data", "get_value_format", "check_ndim", "register", "pop_many", "pop_kwargs_with_prefix", "types", "dims", "np", "HistogramCollection", "TimeTickHandler", "__name__"]
+            name = "pie_%d" % d["pick"] if d["pick"] % 2 == 0 else helpers[(d["pick"] // 2) % len(helpers)]
+            hs[d["ndim"]].plot(name, backend=d["backend"])
         else:
             be = pp.backends[d["backend"]]
             kinds = [k for k in be.types if d["ndim"] not in be.dims[k]]
